@@ -185,12 +185,19 @@ def analyse(res):
     m = SAN_RE.search(err)
     if m and job.get("sanitizer", True):
         frame = first_repo_frame(err[m.start():])
-        viols.append((f"{job['monitor']}:{VARIANTS[job['variant']].get('kind', job['variant'])}-report:{m.group(1).strip(': ')}",
-                      f"first repo frame {frame}\n" + tail(err[m.start():m.start() + 6000], 40)))
+        if frame == "?":
+            # no frame of the report lies in OxiDD: a defect of the harness or the toolchain's
+            # instrumentation, which says nothing about the property either way
+            incon = "sanitizer report without any frame in /repo (harness/toolchain): " + tail(err[m.start():m.start() + 600], 3)
+        else:
+            viols.append((f"{job['monitor']}:{VARIANTS[job['variant']].get('kind', job['variant'])}-report:{m.group(1).strip(': ')}",
+                          f"first repo frame {frame}\n" + tail(err[m.start():m.start() + 6000], 40)))
     if res["timed_out"]:
         incon = f"watchdog ({job['monitor']} shard {res['shard']}) after {res['wall']:.0f}s"
     elif "memory allocation of" in err and "failed" in err:
         incon = "host allocator refused: " + tail(err, 2)
+    elif incon is not None:
+        pass
     elif summary is None:
         rc = res["rc"]
         if m:
